@@ -1305,12 +1305,33 @@ func stripSensitiveHeadersOnRedirect(req *Request, initialHost []byte, redirectU
 		return
 	}
 
-	req.Header.Del(HeaderAuthorization)
-	req.Header.Del(HeaderCookie)
-	req.Header.Del(HeaderCookie2) // Match net/http behavior.
-	req.Header.Del(HeaderProxyAuthenticate)
-	req.Header.Del(HeaderProxyAuthorization)
-	req.Header.Del(HeaderWWWAuthenticate)
+	delHeaderAnyCase(&req.Header, HeaderAuthorization)
+	delHeaderAnyCase(&req.Header, HeaderCookie)
+	delHeaderAnyCase(&req.Header, HeaderCookie2) // Match net/http behavior.
+	delHeaderAnyCase(&req.Header, HeaderProxyAuthenticate)
+	delHeaderAnyCase(&req.Header, HeaderProxyAuthorization)
+	delHeaderAnyCase(&req.Header, HeaderWWWAuthenticate)
+}
+
+// delHeaderAnyCase deletes the header whatever the case of its stored name.
+// With normalizing disabled names keep the caller's spelling and Del matches
+// them exactly, while on the wire 'authorization' is still Authorization.
+func delHeaderAnyCase(h *RequestHeader, name string) {
+	h.Del(name)
+	if !h.disableNormalizing {
+		return
+	}
+	n := 0
+	for i := range h.h {
+		if caseInsensitiveCompare(h.h[i].key, s2b(name)) {
+			continue
+		}
+		if i != n {
+			h.h[i], h.h[n] = h.h[n], h.h[i]
+		}
+		n++
+	}
+	h.h = h.h[:n]
 }
 
 // shouldStripSensitiveHeadersOnRedirect defines the trust boundary for
